@@ -29,19 +29,27 @@ class Machine:
     def __init__(self, tag="m"):
         self.I, self.F, self.arcs = [], [], []
         self.methods = []     # 'add_arc' (accumulates) / 'set_arc' (overwrites) per recorded arc
+        self.methods_IF = []  # the same for initial / final weights
         self.tag = tag
         self.fields = {}
 
     def __pyvc_getattr__(self, interp, nm, node):
         if nm in ("add_I", "set_I"):
-            return I.Native(nm, lambda it, a, k: self.I.append(tuple(a)))
+            return I.Native(nm, lambda it, a, k, nm=nm: (self.I.append(tuple(a)), self.methods_IF.append(nm))[0])
         if nm in ("add_F", "set_F"):
-            return I.Native(nm, lambda it, a, k: self.F.append(tuple(a)))
+            return I.Native(nm, lambda it, a, k, nm=nm: (self.F.append(tuple(a)), self.methods_IF.append(nm))[0])
         if nm in ("add_arc", "set_arc"):
             return I.Native(nm, lambda it, a, k, nm=nm: (self.arcs.append(tuple(a)), self.methods.append(nm))[0])
         if nm in self.fields:
             return self.fields[nm]
         raise I.OutOfSubset(f"machine.{nm}")
+
+
+def overwriting(m):
+    """Recorded writes that overwrite instead of accumulating.  Two contributions to the same arc / initial / final weight (parallel
+    paths, several rules, several epsilon-closure members) must add up, so a generic construction may only use add_arc / add_I /
+    add_F; set_* is legitimate only where the written key is provably new (WFSA.from_strings' trie, not checked through here)."""
+    return [x for x in list(getattr(m, "methods", [])) + list(getattr(m, "methods_IF", [])) if not x.startswith("add_")]
 
 
 def _same(a, b):
@@ -90,6 +98,11 @@ def conformance(run, name, harness, want, role="auxiliary"):
         return
     for path, m in results:
         wi, wf, wa = want(m)
+        ow = overwriting(m)
+        if ow:
+            run.obligation(name, "refuted", role=role, backend="pyvc", detail=f"the construction overwrites ({ow[0]}) where contributions must accumulate",
+                           replay=dict(replayed=False, calls=ow[:5]), signature=name.split("/", 1)[1] + ":accumulates")
+            return
         for have, w, what in ((m.I, wi, "initial weights"), (m.F, wf, "final weights"), (m.arcs, wa, "arcs")):
             ok, why = _multiset_equal(have, w)
             if not ok:
